@@ -53,6 +53,7 @@ def f_pool(tier):
         ("U", "exp", (), ("B", "sub", x, tj)),
         ("B", ("getitem", 0), y, ("V", "k", 2, ())),
         ("B", "mul", tji2, y),
+        ("B", ("getitem", 1), V("y2", "real", (2, 2)), ("V", "k", 2, ())),  # y2[:, k]: index behind an event axis
         ("R", "add", ("B", "mul", tij, x), (("j", 3),)),
         ("R", "logaddexp", tij, (("j", 3),)),
         ("R", "max", ("B", "add", tik, x), (("k", 2),)),
